@@ -111,6 +111,43 @@ func buildC() []byte {
 	return m.Encode()
 }
 
+const valD = 404
+
+// buildD: imports A.tab, ACTIVE element segment A.tab[0] = d, and then fails to instantiate in the given way.
+// variant only makes the binary (and so the module ID in the engine) distinct per API path.
+func buildD(kind, variant int) []byte {
+	m := &wb.Module{}
+	var exit uint32
+	if kind == failStartExit {
+		exit = m.ImportFunc("env", "exit", nil, nil)
+	}
+	m.Imports = append(m.Imports, wb.Import{Module: "A", Name: "tab", Kind: wb.KindTable, Table: wb.Table{Elem: wb.FuncRef, Lim: wb.Limits{Min: 2}}})
+	d := m.AddFunc(nil, i32, nil, (&wb.Asm{}).I32Const(valD).B)
+	m.Elems = []wb.Elem{{Mode: 0, TableIdx: 0, Offset: wb.CI32(0), Funcs: []uint32{d}}}
+	switch kind {
+	case failStartTrap:
+		st := m.AddFunc(nil, nil, nil, (&wb.Asm{}).Unreachable().B)
+		m.Start = &st
+	case failDataOOB:
+		m.Mem = &wb.Limits{Min: 1, Max: 1, HasMax: true}
+		m.Datas = []wb.Data{{Offset: wb.CI32(65535), Bytes: []byte{1, 2}}}
+	case failStartExit:
+		st := m.AddFunc(nil, nil, nil, (&wb.Asm{}).Call(exit).B)
+		m.Start = &st
+	}
+	m.Customs = []wb.Custom{{Name: "variant", Data: []byte{byte(variant)}}}
+	return m.Encode()
+}
+
+var failBins = func() (b [nFailKinds][nVias][]byte) {
+	for k := 0; k < nFailKinds; k++ {
+		for v := 0; v < nVias; v++ {
+			b[k][v] = buildD(k, v)
+		}
+	}
+	return
+}()
+
 func freshBin(n int) []byte {
 	m := &wb.Module{}
 	m.ExportFunc("v", m.AddFunc(nil, i32, nil, (&wb.Asm{}).I32Const(int32(7000+n)).B))
@@ -141,6 +178,7 @@ type world struct {
 	comp    [3]wazero.CompiledModule
 	inst    [3]api.Module
 	fresh   []api.Module
+	failC   [nFailKinds]wazero.CompiledModule // kept compiled modules of D (never closed, never dropped)
 	freshN  int
 	pending int // close action the host function performs at its next invocation (-1: none)
 	pendX   int
@@ -165,7 +203,14 @@ func newWorld(test bool, eng int, noCache bool, need [3]bool) *world {
 	w.rt = wazero.NewRuntimeWithConfig(bgctx, cfg)
 	_, err := w.rt.NewHostModuleBuilder("env").NewFunctionBuilder().
 		WithGoFunction(api.GoFunc(func(ctx context.Context, stack []uint64) { w.hook() }), []api.ValueType{api.ValueTypeI32}, nil).
-		Export("hook").Instantiate(bgctx)
+		Export("hook").NewFunctionBuilder().
+		// what wasi proc_exit does: close the calling module with an exit code, then unwind with sys.ExitError.
+		// Module behaviour, not a history operation: the twin does the same.
+		WithGoModuleFunction(api.GoModuleFunc(func(ctx context.Context, mod api.Module, stack []uint64) {
+			_ = mod.CloseWithExitCode(ctx, 3)
+			panic(sys.NewExitError(3))
+		}), nil, nil).
+		Export("exit").Instantiate(bgctx)
 	if err != nil {
 		fw.Fatalf("host module: %v", err)
 	}
@@ -326,6 +371,24 @@ func (w *world) do(o op) (out string) {
 			return "err:host function was not invoked (" + out + ")"
 		}
 		return out
+	case kFailInst:
+		var err error
+		var m api.Module
+		if o.A == viaKeptCompiled {
+			if w.failC[o.X] == nil {
+				if w.failC[o.X], err = w.rt.CompileModule(bgctx, failBins[o.X][o.A]); err != nil {
+					return "inst-failed:compile:" + outcome(nil, err)
+				}
+			}
+			m, err = w.rt.InstantiateModule(bgctx, w.failC[o.X], wazero.NewModuleConfig().WithName(""))
+		} else {
+			m, err = w.rt.InstantiateWithConfig(bgctx, failBins[o.X][o.A], wazero.NewModuleConfig().WithName(""))
+		}
+		if err == nil {
+			_ = m
+			return "wrong:the instantiation that must fail succeeded"
+		}
+		return "inst-failed:" + outcome(nil, err)
 	case kStore:
 		d := storeDefs[o.X]
 		if d.Guest {
